@@ -6,6 +6,8 @@ import ControlModel.Spec.C15
 
 namespace Load
 
+variable {cfg : Cfg}
+
 /-! ## sibling lists form a monoid -/
 
 @[simp] theorem Tree.append_def (a b : Tree) : Tree.append a b = a ++ b := rfl
@@ -55,6 +57,24 @@ theorem Out.seq_assoc (a b c : Out) : (a.seq b).seq c = a.seq (b.seq c) := by
   cases a; cases b; cases c
   simp [Out.seq, Bool.or_assoc, Tree.append_assoc, Events.or_assoc]
 
+@[simp] theorem maskedOut_f : (maskedOut cfg).f = .nil := by
+  unfold maskedOut; split <;> rfl
+
+@[simp] theorem maskedOut_err : (maskedOut cfg).err = !cfg.maskEnabledError := by
+  unfold maskedOut; cases cfg.maskEnabledError <;> rfl
+
+@[simp] theorem maskedOut_iterDrop : (maskedOut cfg).ev.iterDrop = false := by
+  unfold maskedOut; split <;> rfl
+
+@[simp] theorem maskedOut_hollow : (maskedOut cfg).ev.hollow = false := by
+  unfold maskedOut; split <;> rfl
+
+theorem maskedOut_legacy (h : cfg.maskEnabledError = true) : maskedOut cfg = ⟨false, .nil, { masked := true }⟩ := by
+  simp [maskedOut, h]
+
+theorem maskedOut_code (h : cfg.maskEnabledError = false) : maskedOut cfg = ⟨true, .nil, {}⟩ := by
+  simp [maskedOut, h]
+
 @[simp] theorem Out.seq_err (a b : Out) : (a.seq b).err = (a.err || b.err) := rfl
 @[simp] theorem Out.seq_f (a b : Out) : (a.seq b).f = a.f ++ b.f := rfl
 @[simp] theorem Out.seq_ev (a b : Out) : (a.seq b).ev = a.ev.or b.ev := rfl
@@ -62,7 +82,7 @@ theorem Out.seq_assoc (a b c : Out) : (a.seq b).seq c = a.seq (b.seq c) := by
 /-! ## siblings are processed independently of each other -/
 
 theorem proc_take_drop (ctx : Ctx) (loc : Env) (k : Nat) (t : Tmpl) :
-    (proc ctx loc (t.take k)).seq (proc ctx loc (t.drop k)) = proc ctx loc t := by
+    (proc cfg ctx loc (t.take k)).seq (proc cfg ctx loc (t.drop k)) = proc cfg ctx loc t := by
   induction k generalizing t with
   | zero => simp [Tmpl.take, Tmpl.drop, proc]
   | succ n ih =>
@@ -76,8 +96,8 @@ theorem proc_take_drop (ctx : Ctx) (loc : Env) (k : Nat) (t : Tmpl) :
 /-! ## the small-step machine -/
 
 theorem finish_expandPend (ctx : Ctx) (var : String) (body : Tmpl) (vals : List String) :
-    finish (expandPend ctx var body vals) =
-      vals.foldr (fun v acc => (proc ctx [(var, v)] body).seq acc) Out.empty := by
+    finish cfg (expandPend ctx var body vals) =
+      vals.foldr (fun v acc => (proc cfg ctx [(var, v)] body).seq acc) Out.empty := by
   induction vals with
   | nil => rfl
   | cons v vs ih => simp [expandPend, finish, ih]
@@ -85,12 +105,12 @@ theorem finish_expandPend (ctx : Ctx) (var : String) (body : Tmpl) (vals : List 
 @[simp] theorem aggOut_err (i : Info) (k : Out) : (aggOut i k).err = k.err := by
   unfold aggOut; split <;> rfl
 
-@[simp] theorem iterOut_err (keep : Bool) (k : Out) : (iterOut keep k).err = k.err := by
+@[simp] theorem iterOut_err (raw : Bool) (k : Out) : (iterOut cfg raw k).err = k.err := by
   unfold iterOut; split <;> rfl
 
 /-- Running one goroutine early gives what running it at the end gives. -/
 theorem finish_fire (ctx : Ctx) (loc : Env) (next : PT) (t : Tmpl) :
-    finish (fire ctx loc next t) = (proc ctx loc t).seq (finish next) := by
+    finish cfg (fire cfg ctx loc next t) = (proc cfg ctx loc t).seq (finish cfg next) := by
   cases t with
   | nil => simp [fire, proc]
   | agg h kids nx =>
@@ -103,7 +123,7 @@ theorem finish_fire (ctx : Ctx) (loc : Env) (next : PT) (t : Tmpl) :
     cases evalRange ctx.lookRange r <;> simp [finish, Out.seq_assoc, finish_expandPend]
 
 /-- Invariant of the machine: no scheduler decision changes the final outcome. -/
-theorem finish_stepAt (s : PT) (p : List Dir) (k : Option Nat) : finish (stepAt s p k) = finish s := by
+theorem finish_stepAt (s : PT) (p : List Dir) (k : Option Nat) : finish cfg (stepAt cfg s p k) = finish cfg s := by
   induction s generalizing p with
   | nil => cases p <;> cases k <;> rfl
   | pend ctx loc t next ih =>
@@ -132,15 +152,15 @@ theorem finish_stepAt (s : PT) (p : List Dir) (k : Option Nat) : finish (stepAt 
     | nil => cases k <;> rfl
     | cons d p' => cases d <;> simp [stepAt, finish, ihk, ihn]
 
-theorem finish_run (s : PT) (sched : List Step) : finish (run s sched) = finish s := by
+theorem finish_run (s : PT) (sched : List Step) : finish cfg (run cfg s sched) = finish cfg s := by
   induction sched generalizing s with
   | nil => rfl
   | cons st rest ih => simp [run, ih, finish_stepAt]
 
-theorem finish_init (t : Tmpl) : finish (.pend {} [] t .nil) = proc {} [] t := by
+theorem finish_init (t : Tmpl) : finish cfg (.pend {} [] t .nil) = proc cfg {} [] t := by
   simp [finish]
 
-theorem hasFailed_err (s : PT) (h : hasFailed s = true) : (finish s).err = true := by
+theorem hasFailed_err (s : PT) (h : hasFailed s = true) : (finish cfg s).err = true := by
   induction s with
   | nil => simp [hasFailed] at h
   | pend ctx loc t next ih => simp [hasFailed] at h; simp [finish, ih h]
@@ -171,33 +191,39 @@ theorem toExc_seq (a b : Out) : (a.seq b).toExc = seqCat a.toExc b.toExc := by
 theorem aggOut_f (i : Info) (k : Out) : (aggOut i k).f = aggTree i k.f := by
   unfold aggOut aggTree; split <;> simp_all
 
-theorem iterOut_f (keep : Bool) (k : Out) : (iterOut keep k).f = if keep then Tree.iter k.f .nil else .nil := by
+theorem iterOut_f (raw : Bool) (k : Out) :
+    (iterOut cfg raw k).f = if iterKeep cfg raw k.f then Tree.iter k.f .nil else .nil := by
   unfold iterOut; split <;> rfl
 
 theorem leafOut_toExc_seq (mk : Info → List String → Tree) (r : HdrRes) (rest : Out) :
-    ((leafOut mk r).seq rest).toExc =
+    ((leafOut cfg mk r).seq rest).toExc =
       match r with
       | .error => .error ()
-      | .masked => rest.toExc
+      | .masked => if cfg.maskEnabledError then rest.toExc else .error ()
       | .disabled => rest.toExc
       | .ok i _ ex => match rest.toExc with
         | .error e => .error e
         | .ok t => .ok (mk i ex ++ t) := by
-  cases r <;> cases rest with | mk re rf rv => cases re <;> simp [leafOut, Out.toExc, Out.seq, Out.empty]
+  cases r <;> cases rest with | mk re rf rv =>
+    cases re <;> cases hm : cfg.maskEnabledError <;> simp [leafOut, maskedOut, hm, Out.toExc, Out.seq, Out.empty]
 
-theorem procSeq_eq (ctx : Ctx) (loc : Env) (t : Tmpl) : procSeq ctx loc t = (proc ctx loc t).toExc := by
+theorem procSeq_eq (ctx : Ctx) (loc : Env) (t : Tmpl) : procSeq cfg ctx loc t = (proc cfg ctx loc t).toExc := by
   induction t generalizing ctx loc with
   | nil => simp [procSeq, proc, Out.toExc, Out.empty]
   | agg h kids nx ihk ihn =>
     simp only [procSeq, proc]
     cases hh : procHdr ctx loc h [] with
     | error => simp [Out.toExc, Out.seq]
-    | masked => simp [ihn, Out.toExc, Out.seq]
+    | masked =>
+      simp only [ihn]
+      generalize proc cfg ctx loc nx = r
+      cases r with | mk re rf rv =>
+      cases hm : cfg.maskEnabledError <;> cases re <;> simp [maskedOut, hm, Out.toExc, Out.seq]
     | disabled => simp [ihn]
     | ok i c' ex =>
       simp only [ihk, ihn, toExc_seq]
-      generalize proc c' [] kids = k
-      generalize proc ctx loc nx = r
+      generalize proc cfg c' [] kids = k
+      generalize proc cfg ctx loc nx = r
       cases k with | mk ke kf kv => cases r with | mk re rf rv =>
       cases ke <;> cases re <;> simp [Out.toExc, seqCat, aggOut_f]
   | task h x c nx ihn =>
@@ -212,20 +238,20 @@ theorem procSeq_eq (ctx : Ctx) (loc : Env) (t : Tmpl) : procSeq ctx loc t = (pro
     | none => simp [Out.toExc, Out.seq]
     | some vals =>
       simp only [ihb, ihn]
-      have hfold : (vals.foldr (fun v' acc => seqCat (proc ctx [(v, v')] b).toExc acc) (Except.ok Tree.nil)) =
-          (vals.foldr (fun v' acc => (proc ctx [(v, v')] b).seq acc) Out.empty).toExc := by
+      have hfold : (vals.foldr (fun v' acc => seqCat (proc cfg ctx [(v, v')] b).toExc acc) (Except.ok Tree.nil)) =
+          (vals.foldr (fun v' acc => (proc cfg ctx [(v, v')] b).seq acc) Out.empty).toExc := by
         induction vals with
         | nil => simp [Out.toExc, Out.empty]
         | cons a as iha => simp only [List.foldr_cons, iha, toExc_seq]
       simp only [hfold, toExc_seq]
-      generalize (vals.foldr (fun v' acc => (proc ctx [(v, v')] b).seq acc) Out.empty) = k
-      generalize proc ctx loc nx = rr
+      generalize (vals.foldr (fun v' acc => (proc cfg ctx [(v, v')] b).seq acc) Out.empty) = k
+      generalize proc cfg ctx loc nx = rr
       cases k with | mk ke kf kv => cases rr with | mk re rf rv =>
-      cases ke <;> cases re <;> cases rawEnabled b <;> simp [Out.toExc, seqCat, iterOut]
+      cases ke <;> cases re <;> cases hkp : iterKeep cfg (rawEnabled b) kf <;> simp [Out.toExc, seqCat, iterOut, hkp]
 
-theorem loadSeq_eq (t : Tmpl) : loadSeq t = load t := by
+theorem loadSeq_eq (t : Tmpl) : loadSeq cfg t = load cfg t := by
   simp only [loadSeq, load, procSeq_eq, Out.loaded, Out.toExc]
-  generalize proc {} [] t = o
+  generalize proc cfg {} [] t = o
   cases o with | mk e f v =>
   cases e <;> simp
 
@@ -262,10 +288,13 @@ theorem toI_seq (a b : Out) : (a.seq b).toI = a.toI.seq b.toI := by
 
 theorem leaf_toI (mk : Info → List String → Tree) (r : HdrRes)
     (hmk : ∀ i ex, (mk i ex).flatten = mk i ex)
-    (h : (leafOut mk r).ev.none = true) : idealLeaf mk r = (leafOut mk r).toI := by
+    (h : (leafOut cfg mk r).ev.none = true) : idealLeaf mk r = (leafOut cfg mk r).toI := by
   cases r with
   | error => rfl
-  | masked => simp [leafOut, Events.none] at h
+  | masked =>
+    cases hm : cfg.maskEnabledError with
+    | true => simp [leafOut, maskedOut_legacy hm, Events.none] at h
+    | false => simp [idealLeaf, leafOut, maskedOut_code hm, Out.toI, Tree.flatten]
   | disabled => rfl
   | ok i c ex => simp [idealLeaf, leafOut, Out.toI, hmk]
 
@@ -297,14 +326,14 @@ theorem aggOut_toI (i : Info) (k : Out) (h : (aggOut i k).ev.none = true) :
     rw [idealAgg_of_ne i k.toI hne]
     simp [Out.toI, Tree.flatten]
 
-theorem iterOut_toI (keep : Bool) (k : Out) (h : (iterOut keep k).ev.none = true) :
-    k.ev.none = true ∧ k.toI = (iterOut keep k).toI := by
-  cases keep with
+theorem iterOut_toI (raw : Bool) (k : Out) (h : (iterOut cfg raw k).ev.none = true) :
+    k.ev.none = true ∧ k.toI = (iterOut cfg raw k).toI := by
+  cases hkp : iterKeep cfg raw k.f with
   | true =>
-    simp only [iterOut, if_true] at h ⊢
+    simp only [iterOut, hkp, if_true] at h ⊢
     exact ⟨h, by simp [Out.toI, Tree.flatten]⟩
   | false =>
-    simp only [iterOut, Bool.false_eq_true, if_false, Events.none_or, Bool.and_eq_true] at h ⊢
+    simp only [iterOut, hkp, Bool.false_eq_true, if_false, Events.none_or, Bool.and_eq_true] at h ⊢
     have hn : hasNode k.f = false := by
       have := h.2; simp [Events.none] at this; exact this
     exact ⟨h.1, by simp [Out.toI, (flatten_nil_iff k.f).2 hn, Tree.flatten]⟩
@@ -312,7 +341,7 @@ theorem iterOut_toI (keep : Bool) (k : Out) (h : (iterOut keep k).ev.none = true
 /-- When none of the three recorded behaviours occurs, the code's loader computes exactly
     what the ideal loader computes (after `GetRoles` made the iterators transparent). -/
 theorem proc_ideal (t : Tmpl) : ∀ (ctx : Ctx) (loc : Env),
-    (proc ctx loc t).ev.none = true → ideal ctx loc t = (proc ctx loc t).toI := by
+    (proc cfg ctx loc t).ev.none = true → ideal ctx loc t = (proc cfg ctx loc t).toI := by
   induction t with
   | nil => intro ctx loc _; rfl
   | agg h kids nx ihk ihn =>
@@ -322,11 +351,15 @@ theorem proc_ideal (t : Tmpl) : ∀ (ctx : Ctx) (loc : Env),
     congr 1
     cases hh : procHdr ctx loc h [] with
     | error => rfl
-    | masked => rw [hh] at hev; simp [Events.none] at hev
+    | masked =>
+      rw [hh] at hev
+      cases hm : cfg.maskEnabledError with
+      | true => simp [maskedOut_legacy hm, Events.none] at hev
+      | false => simp [maskedOut_code hm, Out.toI, Tree.flatten]
     | disabled => rfl
     | ok i c' ex =>
       rw [hh] at hev
-      have hk := aggOut_toI i (proc c' [] kids) hev.1
+      have hk := aggOut_toI i (proc cfg c' [] kids) hev.1
       simp only []
       rw [ihk c' [] hk.1, hk.2]
   | task h x c nx ihn =>
@@ -351,9 +384,9 @@ theorem proc_ideal (t : Tmpl) : ∀ (ctx : Ctx) (loc : Env),
     | some vals =>
       rw [hr] at hev
       have hfold : ∀ vs : List String,
-          (vs.foldr (fun v' acc => (proc ctx [(v, v')] b).seq acc) Out.empty).ev.none = true →
+          (vs.foldr (fun v' acc => (proc cfg ctx [(v, v')] b).seq acc) Out.empty).ev.none = true →
           vs.foldr (fun v' acc => (ideal ctx [(v, v')] b).seq acc) {} =
-            (vs.foldr (fun v' acc => (proc ctx [(v, v')] b).seq acc) Out.empty).toI := by
+            (vs.foldr (fun v' acc => (proc cfg ctx [(v, v')] b).seq acc) Out.empty).toI := by
         intro vs
         induction vs with
         | nil => intro _; rfl
@@ -365,7 +398,7 @@ theorem proc_ideal (t : Tmpl) : ∀ (ctx : Ctx) (loc : Env),
       simp only []
       rw [hfold vals hk.1, hk.2]
 
-theorem load_ideal (t : Tmpl) (h : (proc {} [] t).ev.none = true) : load t = idealLoad t := by
+theorem load_ideal (t : Tmpl) (h : (proc cfg {} [] t).ev.none = true) : load cfg t = idealLoad t := by
   simp only [load, idealLoad, proc_ideal t {} [] h, Out.loaded, IOut.loaded, Out.toI]
   rfl
 
@@ -433,7 +466,7 @@ theorem aggOut_noEmptyAgg (i : Info) (k : Out) (h : noEmptyAgg k.f = true) : noE
     simp [noEmptyAgg, Tree.isNil_of_ne hf, h]
 
 /-- In the role tree as the code stores it (iterator nodes included) no aggregator has an empty `Roles`. -/
-theorem proc_noEmptyAgg (t : Tmpl) : ∀ (ctx : Ctx) (loc : Env), noEmptyAgg (proc ctx loc t).f = true := by
+theorem proc_noEmptyAgg (t : Tmpl) : ∀ (ctx : Ctx) (loc : Env), noEmptyAgg (proc cfg ctx loc t).f = true := by
   induction t with
   | nil => intros; rfl
   | agg h kids nx ihk ihn =>
@@ -441,22 +474,22 @@ theorem proc_noEmptyAgg (t : Tmpl) : ∀ (ctx : Ctx) (loc : Env), noEmptyAgg (pr
     simp only [proc, Out.seq_f, noEmptyAgg_append, ihn, Bool.and_true]
     cases procHdr ctx loc h [] with
     | ok i c' ex => exact aggOut_noEmptyAgg i _ (ihk c' [])
-    | _ => rfl
+    | _ => first | rfl | (simp [leafOut] <;> rfl)
   | task h x c nx ihn =>
     intro ctx loc
     simp only [proc, Out.seq_f, noEmptyAgg_append, ihn, Bool.and_true]
-    cases procHdr ctx loc h x <;> rfl
+    cases procHdr ctx loc h x <;> first | rfl | (simp [leafOut] <;> rfl)
   | call h x c nx ihn =>
     intro ctx loc
     simp only [proc, Out.seq_f, noEmptyAgg_append, ihn, Bool.and_true]
-    cases procHdr ctx loc h x <;> rfl
+    cases procHdr ctx loc h x <;> first | rfl | (simp [leafOut] <;> rfl)
   | iter r v b nx ihb ihn =>
     intro ctx loc
     simp only [proc, Out.seq_f, noEmptyAgg_append, ihn, Bool.and_true]
     cases evalRange ctx.lookRange r with
     | none => rfl
     | some vals =>
-      have hfold : noEmptyAgg (vals.foldr (fun v' acc => (proc ctx [(v, v')] b).seq acc) Out.empty).f = true := by
+      have hfold : noEmptyAgg (vals.foldr (fun v' acc => (proc cfg ctx [(v, v')] b).seq acc) Out.empty).f = true := by
         induction vals with
         | nil => rfl
         | cons a as iha => simp [noEmptyAgg_append, iha, ihb]
@@ -523,7 +556,7 @@ theorem aggOut_flat (i : Info) (k : Out) (hh : (aggOut i k).ev.hollow = false)
 /-- Seen through `GetRoles` (iterators transparent) no aggregator is empty, PROVIDED no
     aggregator was kept whose only children are iterators that yielded nothing. -/
 theorem proc_flat_noEmptyAgg (t : Tmpl) : ∀ (ctx : Ctx) (loc : Env),
-    (proc ctx loc t).ev.hollow = false → noEmptyAgg (proc ctx loc t).f.flatten = true := by
+    (proc cfg ctx loc t).ev.hollow = false → noEmptyAgg (proc cfg ctx loc t).f.flatten = true := by
   induction t with
   | nil => intros; rfl
   | agg h kids nx ihk ihn =>
@@ -532,17 +565,17 @@ theorem proc_flat_noEmptyAgg (t : Tmpl) : ∀ (ctx : Ctx) (loc : Env),
     simp only [proc, Out.seq_f, Tree.flatten_append, noEmptyAgg_append, ihn ctx loc hev.2, Bool.and_true]
     cases hh : procHdr ctx loc h [] with
     | ok i c' ex => rw [hh] at hev; exact aggOut_flat i _ hev.1 (ihk c' [])
-    | _ => rfl
+    | _ => first | rfl | (simp [leafOut] <;> rfl)
   | task h x c nx ihn =>
     intro ctx loc hev
     simp only [proc, Out.seq_ev, Events.or_hollow, Bool.or_eq_false_iff] at hev
     simp only [proc, Out.seq_f, Tree.flatten_append, noEmptyAgg_append, ihn ctx loc hev.2, Bool.and_true]
-    cases procHdr ctx loc h x <;> rfl
+    cases procHdr ctx loc h x <;> first | rfl | (simp [leafOut] <;> rfl)
   | call h x c nx ihn =>
     intro ctx loc hev
     simp only [proc, Out.seq_ev, Events.or_hollow, Bool.or_eq_false_iff] at hev
     simp only [proc, Out.seq_f, Tree.flatten_append, noEmptyAgg_append, ihn ctx loc hev.2, Bool.and_true]
-    cases procHdr ctx loc h x <;> rfl
+    cases procHdr ctx loc h x <;> first | rfl | (simp [leafOut] <;> rfl)
   | iter r v b nx ihb ihn =>
     intro ctx loc hev
     simp only [proc, Out.seq_ev, Events.or_hollow, Bool.or_eq_false_iff] at hev
@@ -552,8 +585,8 @@ theorem proc_flat_noEmptyAgg (t : Tmpl) : ∀ (ctx : Ctx) (loc : Env),
     | some vals =>
       rw [hr] at hev
       have hfold : ∀ vs : List String,
-          (vs.foldr (fun v' acc => (proc ctx [(v, v')] b).seq acc) Out.empty).ev.hollow = false →
-          noEmptyAgg (vs.foldr (fun v' acc => (proc ctx [(v, v')] b).seq acc) Out.empty).f.flatten = true := by
+          (vs.foldr (fun v' acc => (proc cfg ctx [(v, v')] b).seq acc) Out.empty).ev.hollow = false →
+          noEmptyAgg (vs.foldr (fun v' acc => (proc cfg ctx [(v, v')] b).seq acc) Out.empty).f.flatten = true := by
         intro vs
         induction vs with
         | nil => intro _; rfl
@@ -563,18 +596,17 @@ theorem proc_flat_noEmptyAgg (t : Tmpl) : ∀ (ctx : Ctx) (loc : Env),
           simp [Tree.flatten_append, noEmptyAgg_append, iha he.2, ihb ctx _ he.1]
       have hk := hev.1
       simp only [] at hk ⊢
-      cases hre : rawEnabled b with
+      cases hkp : iterKeep cfg (rawEnabled b) (vals.foldr (fun v' acc => (proc cfg ctx [(v, v')] b).seq acc) Out.empty).f with
       | true =>
-        rw [hre] at hk
-        simp only [iterOut, if_true] at hk ⊢
+        simp only [iterOut, hkp, if_true] at hk ⊢
         simp [Tree.flatten, hfold vals hk]
-      | false => simp [iterOut, Tree.flatten, noEmptyAgg]
+      | false => simp [iterOut, hkp, Tree.flatten, noEmptyAgg]
 
 /-! ## iterators -/
 
 theorem fold_f (ctx : Ctx) (var : String) (body : Tmpl) (vals : List String) :
-    (vals.foldr (fun v acc => (proc ctx [(var, v)] body).seq acc) Out.empty).f =
-      vals.foldr (fun v acc => (proc ctx [(var, v)] body).f ++ acc) .nil := by
+    (vals.foldr (fun v acc => (proc cfg ctx [(var, v)] body).seq acc) Out.empty).f =
+      vals.foldr (fun v acc => (proc cfg ctx [(var, v)] body).f ++ acc) .nil := by
   induction vals with
   | nil => rfl
   | cons a as ih => simp [ih]
@@ -592,8 +624,8 @@ theorem lookup_loc (var v : String) (rest : Env) : lookup ((var, v) :: rest) var
 
 theorem leafOut_infos (mk : Info → List String → Tree) (var v : String) (ctx : Ctx) (h : Hdr) (x : List Field)
     (hmk : ∀ i ex, (mk i ex).infos = [i] ∧ (mk i ex).isNil = false) :
-    (leafOut mk (procHdr ctx [(var, v)] h x)).f.infos.map (fun i => lookup i.ownV var) =
-      if (leafOut mk (procHdr ctx [(var, v)] h x)).f.isNil then [] else [some v] := by
+    (leafOut cfg mk (procHdr ctx [(var, v)] h x)).f.infos.map (fun i => lookup i.ownV var) =
+      if (leafOut cfg mk (procHdr ctx [(var, v)] h x)).f.isNil then [] else [some v] := by
   cases hh : procHdr ctx [(var, v)] h x with
   | ok i c' ex =>
     obtain ⟨_, v', hv⟩ := procHdr_ok hh
@@ -603,8 +635,8 @@ theorem leafOut_infos (mk : Info → List String → Tree) (var v : String) (ctx
 /-- One instance of an iterator's template (a single role) yields at most one role, and
     that role has the iteration variable bound to the element in its own variables. -/
 theorem single_infos (ctx : Ctx) (var v : String) (body : Tmpl) (hs : single body = true) :
-    (proc ctx [(var, v)] body).f.infos.map (fun i => lookup i.ownV var) =
-      if (proc ctx [(var, v)] body).f.isNil then [] else [some v] := by
+    (proc cfg ctx [(var, v)] body).f.infos.map (fun i => lookup i.ownV var) =
+      if (proc cfg ctx [(var, v)] body).f.isNil then [] else [some v] := by
   cases body with
   | nil => simp [single] at hs
   | iter r v2 b n => simp [single] at hs
@@ -615,8 +647,8 @@ theorem single_infos (ctx : Ctx) (var v : String) (body : Tmpl) (hs : single bod
     | ok i c' ex =>
       obtain ⟨_, v', hv⟩ := procHdr_ok hh
       dsimp only
-      by_cases hf : (proc c' [] kids).f = .nil
-      · have : aggOut i (proc c' [] kids) = ⟨(proc c' [] kids).err, .nil, (proc c' [] kids).ev⟩ := by
+      by_cases hf : (proc cfg c' [] kids).f = .nil
+      · have : aggOut i (proc cfg c' [] kids) = ⟨(proc cfg c' [] kids).err, .nil, (proc cfg c' [] kids).ev⟩ := by
           unfold aggOut; rw [hf]
         simp [this, Tree.infos, Tree.isNil]
       · simp [aggOut_of_ne i _ hf, Tree.infos, Tree.isNil, hv, lookup_loc]
@@ -633,14 +665,14 @@ theorem single_infos (ctx : Ctx) (var v : String) (body : Tmpl) (hs : single bod
 /-- The children of an expanded iterator, read off by their binding of the iteration
     variable: exactly the range elements whose instance survived, in range order. -/
 theorem iter_bindings (ctx : Ctx) (var : String) (body : Tmpl) (hs : single body = true) (vals : List String) :
-    (vals.foldr (fun v acc => (proc ctx [(var, v)] body).seq acc) Out.empty).f.infos.map (fun i => lookup i.ownV var) =
-      (vals.filter fun v => !(proc ctx [(var, v)] body).f.isNil).map some := by
+    (vals.foldr (fun v acc => (proc cfg ctx [(var, v)] body).seq acc) Out.empty).f.infos.map (fun i => lookup i.ownV var) =
+      (vals.filter fun v => !(proc cfg ctx [(var, v)] body).f.isNil).map some := by
   rw [fold_f]
   induction vals with
   | nil => rfl
   | cons a as ih =>
     simp only [List.foldr_cons, Tree.infos_append, List.map_append, ih, single_infos ctx var a body hs, List.filter_cons]
-    cases (proc ctx [(var, a)] body).f.isNil <;> simp
+    cases (proc cfg ctx [(var, a)] body).f.isNil <;> simp
 
 /-! ## `TrimSpace` is idempotent, so a stored `enabled` is truthy iff the evaluated one was -/
 
@@ -688,7 +720,7 @@ theorem truthy_trim (s : String) : truthy (trim s) = truthy s := by
   unfold truthy; rw [trim_idem]
 
 /-- Every role that is left in the tree carries an `enabled` that reads true/1. -/
-theorem proc_allEnabled (t : Tmpl) : ∀ (ctx : Ctx) (loc : Env), allEnabled (proc ctx loc t).f = true := by
+theorem proc_allEnabled (t : Tmpl) : ∀ (ctx : Ctx) (loc : Env), allEnabled (proc cfg ctx loc t).f = true := by
   have happ : ∀ a b : Tree, allEnabled (a ++ b) = (allEnabled a && allEnabled b) := by
     intro a b
     induction a with
@@ -709,31 +741,31 @@ theorem proc_allEnabled (t : Tmpl) : ∀ (ctx : Ctx) (loc : Env), allEnabled (pr
     cases hh : procHdr ctx loc h [] with
     | ok i c' ex =>
       dsimp only
-      by_cases hf : (proc c' [] kids).f = .nil
-      · have : aggOut i (proc c' [] kids) = ⟨(proc c' [] kids).err, .nil, (proc c' [] kids).ev⟩ := by
+      by_cases hf : (proc cfg c' [] kids).f = .nil
+      · have : aggOut i (proc cfg c' [] kids) = ⟨(proc cfg c' [] kids).err, .nil, (proc cfg c' [] kids).ev⟩ := by
           unfold aggOut; rw [hf]
         rw [this]; rfl
       · simp [aggOut_of_ne i _ hf, allEnabled, hen hh, ihk c' []]
-    | _ => rfl
+    | _ => first | rfl | (simp [leafOut] <;> rfl)
   | task h x c nx ihn =>
     intro ctx loc
     simp only [proc, Out.seq_f, happ, ihn, Bool.and_true]
     cases hh : procHdr ctx loc h x with
     | ok i c' ex => simp [leafOut, allEnabled, hen hh]
-    | _ => rfl
+    | _ => first | rfl | (simp [leafOut] <;> rfl)
   | call h x c nx ihn =>
     intro ctx loc
     simp only [proc, Out.seq_f, happ, ihn, Bool.and_true]
     cases hh : procHdr ctx loc h x with
     | ok i c' ex => simp [leafOut, allEnabled, hen hh]
-    | _ => rfl
+    | _ => first | rfl | (simp [leafOut] <;> rfl)
   | iter r v b nx ihb ihn =>
     intro ctx loc
     simp only [proc, Out.seq_f, happ, ihn, Bool.and_true]
     cases evalRange ctx.lookRange r with
     | none => rfl
     | some vals =>
-      have hfold : allEnabled (vals.foldr (fun v' acc => (proc ctx [(v, v')] b).seq acc) Out.empty).f = true := by
+      have hfold : allEnabled (vals.foldr (fun v' acc => (proc cfg ctx [(v, v')] b).seq acc) Out.empty).f = true := by
         induction vals with
         | nil => rfl
         | cons a as iha => simp [happ, iha, ihb]
@@ -777,7 +809,7 @@ theorem body_disabled (ctx : Ctx) (loc : Env) (b : Tmpl)
            | .task h _ _ .nil => isLiteral h.enabled
            | .call h _ _ .nil => isLiteral h.enabled
            | _ => false) = true)
-    (hr : rawEnabled b = false) : proc ctx loc b = Out.empty := by
+    (hr : rawEnabled b = false) : proc cfg ctx loc b = Out.empty := by
   cases b with
   | nil => rfl
   | iter r v b n => simp at hl
@@ -795,7 +827,7 @@ theorem body_disabled (ctx : Ctx) (loc : Env) (b : Tmpl)
     simp [proc, procHdr_disabled (evalField_literal _ _ hl) hr, leafOut]
 
 theorem proc_no_iterDrop (t : Tmpl) : ∀ (ctx : Ctx) (loc : Env),
-    iterEnabledLiteral t = true → (proc ctx loc t).ev.iterDrop = false := by
+    iterEnabledLiteral t = true → (proc cfg ctx loc t).ev.iterDrop = false := by
   induction t with
   | nil => intros; rfl
   | agg h kids nx ihk ihn =>
@@ -805,22 +837,22 @@ theorem proc_no_iterDrop (t : Tmpl) : ∀ (ctx : Ctx) (loc : Env),
     cases procHdr ctx loc h [] with
     | ok i c' ex =>
       dsimp only
-      by_cases hf : (proc c' [] kids).f = .nil
-      · have : aggOut i (proc c' [] kids) = ⟨(proc c' [] kids).err, .nil, (proc c' [] kids).ev⟩ := by
+      by_cases hf : (proc cfg c' [] kids).f = .nil
+      · have : aggOut i (proc cfg c' [] kids) = ⟨(proc cfg c' [] kids).err, .nil, (proc cfg c' [] kids).ev⟩ := by
           unfold aggOut; rw [hf]
         rw [this]; exact ihk c' [] hl.1
       · rw [aggOut_of_ne i _ hf]; simp [ihk c' [] hl.1]
-    | _ => rfl
+    | _ => first | rfl | (simp [leafOut] <;> rfl)
   | task h x c nx ihn =>
     intro ctx loc hl
     simp only [iterEnabledLiteral] at hl
     simp only [proc, Out.seq_ev, Events.or_iterDrop, ihn ctx loc hl, Bool.or_false]
-    cases procHdr ctx loc h x <;> rfl
+    cases procHdr ctx loc h x <;> first | rfl | (simp [leafOut] <;> rfl)
   | call h x c nx ihn =>
     intro ctx loc hl
     simp only [iterEnabledLiteral] at hl
     simp only [proc, Out.seq_ev, Events.or_iterDrop, ihn ctx loc hl, Bool.or_false]
-    cases procHdr ctx loc h x <;> rfl
+    cases procHdr ctx loc h x <;> first | rfl | (simp [leafOut] <;> rfl)
   | iter r v b nx ihb ihn =>
     intro ctx loc hl
     simp only [iterEnabledLiteral, Bool.and_eq_true] at hl
@@ -829,18 +861,147 @@ theorem proc_no_iterDrop (t : Tmpl) : ∀ (ctx : Ctx) (loc : Env),
     | none => rfl
     | some vals =>
       dsimp only
-      cases hre : rawEnabled b with
-      | true =>
-        simp only [iterOut, if_true]
+      have hfold : (vals.foldr (fun v' acc => (proc cfg ctx [(v, v')] b).seq acc) Out.empty).ev.iterDrop = false := by
         induction vals with
         | nil => rfl
         | cons a as iha => simp [iha, ihb ctx _ hl.1.2]
+      cases hkp : iterKeep cfg (rawEnabled b) (vals.foldr (fun v' acc => (proc cfg ctx [(v, v')] b).seq acc) Out.empty).f with
+      | true => simp [iterOut, hkp, hfold]
       | false =>
-        have hempty : vals.foldr (fun v' acc => (proc ctx [(v, v')] b).seq acc) Out.empty = Out.empty := by
-          induction vals with
-          | nil => rfl
-          | cons a as iha => rw [List.foldr_cons, iha, body_disabled ctx _ b hl.1.1 hre]; rfl
-        rw [hempty]; rfl
+        have hn : hasNode (vals.foldr (fun v' acc => (proc cfg ctx [(v, v')] b).seq acc) Out.empty).f = false := by
+          unfold iterKeep at hkp
+          cases hc : cfg.iterByRawText with
+          | true =>
+            simp only [hc, if_true] at hkp
+            have hempty : ∀ vs : List String,
+                vs.foldr (fun v' acc => (proc cfg ctx [(v, v')] b).seq acc) Out.empty = Out.empty := by
+              intro vs
+              induction vs with
+              | nil => rfl
+              | cons a as iha => rw [List.foldr_cons, iha, body_disabled ctx _ b hl.1.1 hkp]; rfl
+            rw [hempty]; rfl
+          | false =>
+            simp only [hc, Bool.false_eq_true, if_false, Bool.not_eq_false'] at hkp
+            cases hf : (vals.foldr (fun v' acc => (proc cfg ctx [(v, v')] b).seq acc) Out.empty).f <;>
+              simp_all [Tree.isNil, hasNode]
+        simp [iterOut, hkp, hfold, hn]
+
+/-! ## the code as it is: none of the three recorded behaviours can occur -/
+
+theorem hasNode_append (a b : Tree) : hasNode (a ++ b) = (hasNode a || hasNode b) := by
+  induction a with
+  | nil => simp [hasNode]
+  | agg i k n _ _ => simp [hasNode]
+  | task i x c n _ => simp [hasNode]
+  | call i x c n _ => simp [hasNode]
+  | iter k n _ ihn => simp [hasNode, ihn, Bool.or_assoc]
+
+theorem isNil_append (a b : Tree) : (a ++ b).isNil = (a.isNil && b.isNil) := by
+  cases a <;> simp [Tree.isNil]
+
+/-- "solid": a sibling list that is not empty holds a real role (no iterator node over nothing) -/
+def solid (f : Tree) : Prop := hasNode f = !f.isNil
+
+theorem solid_append {a b : Tree} (ha : solid a) (hb : solid b) : solid (a ++ b) := by
+  unfold solid at *
+  rw [hasNode_append, isNil_append, ha, hb]
+  cases a.isNil <;> cases b.isNil <;> rfl
+
+theorem solid_nil : solid .nil := rfl
+
+theorem aggOut_solid (i : Info) (k : Out) : solid (aggOut i k).f := by
+  rw [aggOut_f]; cases k.f <;> rfl
+
+theorem leafOut_solid (mk : Info → List String → Tree) (r : HdrRes)
+    (hmk : ∀ i ex, solid (mk i ex)) : solid (leafOut cfg mk r).f := by
+  cases r with
+  | ok i c ex => exact hmk i ex
+  | masked => simp [leafOut, solid_nil]
+  | _ => exact solid_nil
+
+/-- With the rule of the code as it is (`iterByRawText = false`: an iterator that holds nothing
+    is filtered out) every stored sibling list is solid. -/
+theorem proc_code_solid (hc : cfg.iterByRawText = false) (t : Tmpl) :
+    ∀ (ctx : Ctx) (loc : Env), solid (proc cfg ctx loc t).f := by
+  induction t with
+  | nil => intros; exact solid_nil
+  | agg h kids nx _ ihn =>
+    intro ctx loc
+    simp only [proc, Out.seq_f]
+    refine solid_append ?_ (ihn ctx loc)
+    cases procHdr ctx loc h [] with
+    | ok i c' ex => exact aggOut_solid i _
+    | masked => simp [solid_nil]
+    | _ => exact solid_nil
+  | task h x c nx ihn =>
+    intro ctx loc
+    simp only [proc, Out.seq_f]
+    exact solid_append (leafOut_solid _ _ (by intros; rfl)) (ihn ctx loc)
+  | call h x c nx ihn =>
+    intro ctx loc
+    simp only [proc, Out.seq_f]
+    exact solid_append (leafOut_solid _ _ (by intros; rfl)) (ihn ctx loc)
+  | iter r v b nx ihb ihn =>
+    intro ctx loc
+    simp only [proc, Out.seq_f]
+    refine solid_append ?_ (ihn ctx loc)
+    cases evalRange ctx.lookRange r with
+    | none => exact solid_nil
+    | some vals =>
+      have hfold : solid (vals.foldr (fun v' acc => (proc cfg ctx [(v, v')] b).seq acc) Out.empty).f := by
+        induction vals with
+        | nil => exact solid_nil
+        | cons a as iha => simp only [List.foldr_cons, Out.seq_f]; exact solid_append (ihb ctx _) iha
+      simp only [iterOut_f, iterKeep, hc, Bool.false_eq_true, if_false]
+      generalize (vals.foldr (fun v' acc => (proc cfg ctx [(v, v')] b).seq acc) Out.empty).f = kf at hfold
+      unfold solid at hfold ⊢
+      cases hk : kf.isNil <;> simp_all [hasNode, Tree.isNil]
+
+/-- The code as it is shows none of the three behaviours, whatever the template. -/
+theorem proc_code_ev (hm : cfg.maskEnabledError = false) (hc : cfg.iterByRawText = false) (t : Tmpl) :
+    ∀ (ctx : Ctx) (loc : Env), (proc cfg ctx loc t).ev = {} := by
+  have hleaf : ∀ (mk : Info → List String → Tree) (r : HdrRes), (leafOut cfg mk r).ev = {} := by
+    intro mk r; cases r <;> simp [leafOut, maskedOut_code hm, Out.empty]
+  induction t with
+  | nil => intros; rfl
+  | agg h kids nx ihk ihn =>
+    intro ctx loc
+    simp only [proc, Out.seq_ev, ihn ctx loc, Events.or_empty]
+    cases procHdr ctx loc h [] with
+    | ok i c' ex =>
+      dsimp only
+      by_cases hf : (proc cfg c' [] kids).f = .nil
+      · have : aggOut i (proc cfg c' [] kids) = ⟨(proc cfg c' [] kids).err, .nil, (proc cfg c' [] kids).ev⟩ := by
+          unfold aggOut; rw [hf]
+        rw [this]; exact ihk c' []
+      · have hs := proc_code_solid hc kids c' []
+        unfold solid at hs
+        rw [aggOut_of_ne i _ hf, ihk c' [], hs, Tree.isNil_of_ne hf]; rfl
+    | masked => simp [maskedOut_code hm]
+    | _ => rfl
+  | task h x c nx ihn => intro ctx loc; simp only [proc, Out.seq_ev, ihn ctx loc, hleaf, Events.or_empty]
+  | call h x c nx ihn => intro ctx loc; simp only [proc, Out.seq_ev, ihn ctx loc, hleaf, Events.or_empty]
+  | iter r v b nx ihb ihn =>
+    intro ctx loc
+    simp only [proc, Out.seq_ev, ihn ctx loc, Events.or_empty]
+    cases evalRange ctx.lookRange r with
+    | none => rfl
+    | some vals =>
+      have hfold : (vals.foldr (fun v' acc => (proc cfg ctx [(v, v')] b).seq acc) Out.empty).ev = {} := by
+        induction vals with
+        | nil => rfl
+        | cons a as iha => simp only [List.foldr_cons, Out.seq_ev, ihb ctx _, iha, Events.or_empty]
+      dsimp only
+      generalize (vals.foldr (fun v' acc => (proc cfg ctx [(v, v')] b).seq acc) Out.empty) = k at hfold
+      cases hk : k.f with
+      | nil => simp [iterOut, iterKeep, hc, hk, Tree.isNil, hasNode, hfold]
+      | _ => simp [iterOut, iterKeep, hc, hk, Tree.isNil, hfold]
+
+theorem proc_code_none (t : Tmpl) (ctx : Ctx) (loc : Env) : (proc codeCfg ctx loc t).ev.none = true := by
+  rw [proc_code_ev rfl rfl]; rfl
+
+/-- THE CODE AS IT IS loads every template to what the ideal loader yields. -/
+theorem load_code_ideal (t : Tmpl) : load codeCfg t = idealLoad t := load_ideal t (proc_code_none t {} [])
 
 /-! ## nested iterators: every generated role evaluates the inner range in its own stack -/
 
@@ -903,28 +1064,41 @@ theorem aggOut_leaves (i : Info) (k : Out) : (aggOut i k).f.leaves = k.f.leaves 
   cases hk : k.f <;> simp [aggTree, Tree.leaves]
 
 theorem fold_leaves (ctx : Ctx) (var : String) (body : Tmpl) (vals : List String) :
-    (vals.foldr (fun v acc => (proc ctx [(var, v)] body).seq acc) Out.empty).f.leaves =
-      vals.flatMap fun v => (proc ctx [(var, v)] body).f.leaves := by
+    (vals.foldr (fun v acc => (proc cfg ctx [(var, v)] body).seq acc) Out.empty).f.leaves =
+      vals.flatMap fun v => (proc cfg ctx [(var, v)] body).f.leaves := by
   induction vals with
   | nil => rfl
   | cons a as ih => simp [ih]
 
 /-- the task / call roles under an iterator (kept by its parent): per range element, in range order -/
-theorem iter_leaves (ctx : Ctx) (loc : Env) (r : RangeT) (v : String) (b : Tmpl) (hb : rawEnabled b = true) :
-    (proc ctx loc (.iter r v b .nil)).f.leaves =
+theorem iter_leaves (ctx : Ctx) (loc : Env) (r : RangeT) (v : String) (b : Tmpl)
+    (hb : cfg.iterByRawText = true → rawEnabled b = true) :
+    (proc cfg ctx loc (.iter r v b .nil)).f.leaves =
       match evalRange ctx.lookRange r with
       | none => []
-      | some ws => ws.flatMap fun w => (proc ctx [(v, w)] b).f.leaves := by
+      | some ws => ws.flatMap fun w => (proc cfg ctx [(v, w)] b).f.leaves := by
   simp only [proc, Out.seq_empty]
   cases evalRange ctx.lookRange r with
   | none => simp [Tree.leaves]
-  | some ws => simp only [hb, iterOut, if_true, Tree.leaves, List.append_nil, fold_leaves]
+  | some ws =>
+    dsimp only
+    rw [← fold_leaves]
+    generalize ws.foldr (fun v' acc => (proc cfg ctx [(v, v')] b).seq acc) Out.empty = k
+    cases hkp : iterKeep cfg (rawEnabled b) k.f with
+    | true => simp [iterOut, hkp, Tree.leaves]
+    | false =>
+      unfold iterKeep at hkp
+      cases hc : cfg.iterByRawText with
+      | true => simp [hc, hb hc] at hkp
+      | false =>
+        simp only [hc, Bool.false_eq_true, if_false, Bool.not_eq_false'] at hkp
+        cases hf : k.f <;> simp_all [Tree.isNil, iterOut, iterKeep, Tree.leaves]
 
 /-- the task / call roles under one generated aggregator: those of its children, processed in ITS stack -/
 theorem agg_leaves (ctx : Ctx) (loc : Env) (h : Hdr) (kids : Tmpl) :
-    (proc ctx loc (.agg h kids .nil)).f.leaves =
+    (proc cfg ctx loc (.agg h kids .nil)).f.leaves =
       match procHdr ctx loc h [] with
-      | .ok _ c' _ => (proc c' [] kids).f.leaves
+      | .ok _ c' _ => (proc cfg c' [] kids).f.leaves
       | _ => [] := by
   simp only [proc, Out.seq_empty]
   cases procHdr ctx loc h [] with
@@ -935,16 +1109,16 @@ theorem agg_leaves (ctx : Ctx) (loc : Env) (h : Hdr) (kids : Tmpl) :
 
 /-- The task / call roles of a nest of iterators of ANY depth: the innermost template, instantiated
     once per stack of `nestCtxs`, in that order. -/
-theorem nest_leaves (inner : Tmpl) : ∀ (ls : List Level) (ctx : Ctx), nestEnabled ls = true →
-    (proc ctx [] (nest ls inner)).f.leaves = (nestCtxs ctx ls).flatMap fun c => (proc c [] inner).f.leaves := by
+theorem nest_leaves (inner : Tmpl) : ∀ (ls : List Level) (ctx : Ctx), (cfg.iterByRawText = true → nestEnabled ls = true) →
+    (proc cfg ctx [] (nest ls inner)).f.leaves = (nestCtxs ctx ls).flatMap fun c => (proc cfg c [] inner).f.leaves := by
   intro ls
   induction ls with
   | nil => intro ctx _; simp [nest, nestCtxs]
   | cons l ls ih =>
     intro ctx hen
     simp only [nestEnabled, List.all_cons, Bool.and_eq_true] at hen
-    have hl : rawEnabled (.agg l.hdr (nest ls inner) .nil) = true := hen.1
-    have hls : nestEnabled ls = true := hen.2
+    have hl : cfg.iterByRawText = true → rawEnabled (.agg l.hdr (nest ls inner) .nil) = true := fun hc => (hen hc).1
+    have hls : cfg.iterByRawText = true → nestEnabled ls = true := fun hc => (hen hc).2
     rw [nest, iter_leaves ctx [] l.rng l.var _ hl]
     simp only [nestCtxs]
     cases evalRange ctx.lookRange l.rng with
@@ -962,15 +1136,15 @@ theorem nest_leaves (inner : Tmpl) : ∀ (ls : List Level) (ctx : Ctx), nestEnab
 
 /-- an iterator without later siblings ignores the locals it is reached with -/
 theorem proc_iter_loc (ctx : Ctx) (loc : Env) (r : RangeT) (v : String) (b : Tmpl) :
-    proc ctx loc (.iter r v b .nil) = proc ctx [] (.iter r v b .nil) := by
+    proc cfg ctx loc (.iter r v b .nil) = proc cfg ctx [] (.iter r v b .nil) := by
   simp [proc]
 
 /-- sibling copies of an iterator's template do not influence each other: the outcome over a
     concatenated range is the concatenation of the outcomes -/
 theorem fold_append (ctx : Ctx) (var : String) (body : Tmpl) (vs₁ vs₂ : List String) :
-    (vs₁ ++ vs₂).foldr (fun v acc => (proc ctx [(var, v)] body).seq acc) Out.empty =
-      (vs₁.foldr (fun v acc => (proc ctx [(var, v)] body).seq acc) Out.empty).seq
-        (vs₂.foldr (fun v acc => (proc ctx [(var, v)] body).seq acc) Out.empty) := by
+    (vs₁ ++ vs₂).foldr (fun v acc => (proc cfg ctx [(var, v)] body).seq acc) Out.empty =
+      (vs₁.foldr (fun v acc => (proc cfg ctx [(var, v)] body).seq acc) Out.empty).seq
+        (vs₂.foldr (fun v acc => (proc cfg ctx [(var, v)] body).seq acc) Out.empty) := by
   induction vs₁ with
   | nil => simp
   | cons a as ih => simp only [List.cons_append, List.foldr_cons, ih, Out.seq_assoc]
